@@ -108,7 +108,13 @@ SparseMatrixCSR<T>::SparseMatrixCSR(const SparseMatrixCSR& other)
 {
     std::copy(other.values_.get(), other.values_.get() + nnz_, values_.get());
     std::copy(other.column_indices_.get(), other.column_indices_.get() + nnz_, column_indices_.get());
-    std::copy(other.row_start_indices_.get(), other.row_start_indices_.get() + rows_ + 1, row_start_indices_.get());
+    if (other.row_start_indices_) {
+        std::copy(other.row_start_indices_.get(), other.row_start_indices_.get() + rows_ + 1,
+                  row_start_indices_.get());
+    }
+    else {
+        row_start_indices_[0] = 0; /* the source was default constructed */
+    }
 }
 
 // copy assignment
@@ -131,7 +137,16 @@ SparseMatrixCSR<T>& SparseMatrixCSR<T>::operator=(const SparseMatrixCSR& other)
     nnz_     = other.nnz_;
     std::copy(other.values_.get(), other.values_.get() + nnz_, values_.get());
     std::copy(other.column_indices_.get(), other.column_indices_.get() + nnz_, column_indices_.get());
-    std::copy(other.row_start_indices_.get(), other.row_start_indices_.get() + rows_ + 1, row_start_indices_.get());
+    if (other.row_start_indices_) {
+        std::copy(other.row_start_indices_.get(), other.row_start_indices_.get() + rows_ + 1,
+                  row_start_indices_.get());
+    }
+    else {
+        if (!row_start_indices_) {
+            row_start_indices_ = std::make_unique<int[]>(1);
+        }
+        row_start_indices_[0] = 0; /* the source was default constructed */
+    }
     return *this;
 }
 
